@@ -339,9 +339,17 @@ func TestC03(t *testing.T) {
 	h := start(t, "C03", "complete enumeration, for v3.0 and v3.1 each, of the 16,588,800 effective classes (2,592 base combinations x CR/IR/AR incl. X x E/RL/RC incl. X, Modified metrics X) checking BaseScore, TemporalScore, EnvironmentalScore, Impact and Exploitability, walked twice: once with the effective values held by the base metrics and once with every Modified metric holding the effective value over other base values; plus, exhaustively, every base combination x every pair of Modified metric values (2 x 1.4 million cases), a grid (each Modified metric x each value x each base value x 12 backgrounds) and rapid lifts into the raw space with Modified metrics defined; non-trivial = environmental score > 0; enumerated classes are distinct by construction, lifts by assignment")
 	h.R.Assume("oracle: FIRST v3.0/v3.1 equations in math/big.Rat, Roundup as the real-number ceiling to one decimal (spec/score3.go); spec_test.go shows it coincides with the Appendix A integer algorithm on the whole domain")
 	h.R.Assume("the three scores are compared exactly (got == k/10); Impact/Exploitability with absolute tolerance 1e-9")
+	if h.replaying() && h.replay.Kind == "score-history" {
+		doReplay(h, "score-history", checkScoreHist)
+		return
+	}
 	if doReplay(h, "v3-assignment", checkV3Scores) {
 		return
 	}
+	// first: single scoring methods in generated order on one object (a defect that depends on the order of
+	// calls gets a replayable history here, before the walks could only flag it)
+	runScoreHists(h, 1, env.Scale(6000, 60000))
+	runScoreHists(h, 2, env.Scale(6000, 60000))
 	if env.Shards <= 1 && !env.Light {
 		c03Enumerate(h, 1, false)
 		c03Enumerate(h, 2, false)
@@ -568,9 +576,14 @@ func (sp *v4SingleSpace) decode(idx int) ScoreCase {
 func TestC04(t *testing.T) {
 	h := start(t, "C04", "complete enumeration of the 15,116,544 effective v4.0 classes (AV AC AT PR UI VC VI VA SC SI{S,H,L,N} SA{S,H,L,N} E{A,P,U} CR IR AR{H,M,L}; SI/SA=S carried by MSI/MSA:S) covering all 270 MacroVectors, walked twice (effective values held by the base metrics; held by the Modified metrics over other base values), Score compared exactly with the oracle; plus, exhaustively, every base combination (104,976) x every single Modified metric value (3.9 million cases), and rapid lifts into the raw space (Modified overrides, explicit X, supplemental metrics, all-None corner profiles); non-trivial = not all effective impacts None; enumerated classes are distinct by construction, lifts by assignment")
 	h.R.Assume("oracle: specification section 8.2 over metric letters, exact fraction of tenths with denominator 840*n, rounded half-up (spec/score4.go); frozen 270-entry lookup table (spec/v4lookup.go, SHA-256 pinned in spec_test.go)")
+	if h.replaying() && h.replay.Kind == "score-history" {
+		doReplay(h, "score-history", checkScoreHist)
+		return
+	}
 	if doReplay(h, "v4-assignment", checkV4Score) {
 		return
 	}
+	runScoreHists(h, 3, env.Scale(8000, 60000))
 	if env.Shards <= 1 && !env.Light {
 		n := spec.V4Classes()
 		imp := v4AllScores()
